@@ -282,26 +282,24 @@ From Stam Require Import Proofs.StamJsonSave.
 Lemma NoDup_of_ids_ok l : ids_ok l = true -> NoDup l.
 Proof. unfold ids_ok. intros H. apply andb_prop in H. apply str_nodup_NoDup. apply H. Qed.
 
-Theorem decode_encode_canon s c :
+(* the loader applied to the main document, with any set of files that holds the stand-off files *)
+Theorem build_main_doc s c fs :
   wf_dstore s = true -> canon s = Some c ->
-  exists s', decode (encode_c c) = Some s' /\ canon s' = Some c.
+  (forall f x, In (f, x) (side_files c) -> file_get fs f = Some x) ->
+  exists s', build fs (main_doc c) = Some s' /\ canon s' = Some c.
 Proof.
-  intros Hwf Hc.
-  pose proof (main_doc_ok _ _ Hwf Hc) as Hok.
-  pose proof (side_file_names _ _ Hc) as Hnames.
+  intros Hwf Hc NDf.
   destruct (wf_dstore_parts _ Hwf) as (Ir & Is & Ia & Wsets & Wanns & Hfiles & Fa & Fr & Fs).
-  assert (NDf : NoDup (map fst (side_files c))) by (rewrite Hnames; apply str_nodup_NoDup; exact Hfiles).
   unfold canon in Hc.
   destruct (omap (fun p => canon_set (snd p)) (live (st_sets s))) as [css|] eqn:Es; [|discriminate].
   destruct (omap (canon_ann s) (live (st_anns s))) as [cas|] eqn:Ea; [|discriminate]. injection Hc as <-.
   set (crs := map (fun p => canon_res (snd p)) (live (st_ress s))) in *.
   set (c := mkcstore (st_id s) crs css cas) in *.
-  unfold decode, encode_c. cbn [fst snd]. rewrite (parse_json_of_bstore _ Hok).
   unfold build, main_doc. cbn [b_ress b_sets b_anns b_id c_ress c_sets c_anns c_id c].
   (* resources *)
-  assert (Hress : load_ress (side_files c) [] (map bres_of crs) = Some (map (fun cr => Some (dres_of cr)) crs)).
+  assert (Hress : load_ress fs [] (map bres_of crs) = Some (map (fun cr => Some (dres_of cr)) crs)).
   { rewrite load_ress_ok; [reflexivity| |].
-    - intros cr f Hin Hf. apply file_get_first; [exact NDf|]. unfold side_files. apply in_or_app. left.
+    - intros cr f Hin Hf. apply NDf. unfold side_files. apply in_or_app. left.
       apply in_flat_map. exists cr. split; [exact Hin|]. unfold res_file, res_content. rewrite Hf. left. reflexivity.
     - cbn [pids flat_map app]. unfold crs. rewrite map_map. cbn [cr_id canon_res]. apply NoDup_of_ids_ok. exact Ir. }
   rewrite Hress.
@@ -322,10 +320,10 @@ Proof.
   { unfold pairs. clear -Hlen. rewrite <- (map_map snd js_id). revert css Hlen.
     induction (map snd (live (st_sets s))) as [|d l IH]; intros [|cs css] Hl; cbn in *; try discriminate; [reflexivity|].
     f_equal. apply IH. lia. }
-  destruct (load_sets_ok (side_files c) pairs []) as (dss & Hsets & HFs).
+  destruct (load_sets_ok fs pairs []) as (dss & Hsets & HFs).
   { intros ds cs Hin. destruct (Hpairs_in _ _ Hin) as (h & Hin' & Hcs). split; [|split; [exact Hcs|]].
     - rewrite forallb_forall in Wsets. apply (Wsets (h, ds)). exact Hin'.
-    - intros f Hf. apply file_get_first; [exact NDf|]. unfold side_files. apply in_or_app. right.
+    - intros f Hf. apply NDf. unfold side_files. apply in_or_app. right.
       apply in_flat_map. exists cs. split; [|unfold set_file; rewrite Hf; left; reflexivity].
       unfold pairs in Hin. exact (in_combine_r _ _ _ _ Hin). }
   { cbn [pids flat_map app]. rewrite Hmapid. apply NoDup_of_ids_ok. exact Is. }
@@ -374,6 +372,19 @@ Proof.
   f_equal. unfold c. f_equal. unfold rs'. rewrite <- (map_map dres_of Some).
   rewrite <- (map_map snd canon_res). rewrite live_map_some. rewrite map_map.
   rewrite <- (map_id crs) at 2. apply map_ext. intros cr. apply canon_res_dres_of.
+Qed.
+
+Theorem decode_encode_canon s c :
+  wf_dstore s = true -> canon s = Some c ->
+  exists s', decode (encode_c c) = Some s' /\ canon s' = Some c.
+Proof.
+  intros Hwf Hc.
+  pose proof (main_doc_ok _ _ Hwf Hc) as Hok.
+  pose proof (side_file_names _ _ Hc) as Hnames.
+  destruct (wf_dstore_parts _ Hwf) as (_ & _ & _ & _ & _ & Hfiles & _).
+  assert (NDf : NoDup (map fst (side_files c))) by (rewrite Hnames; apply str_nodup_NoDup; exact Hfiles).
+  unfold decode, encode_c. cbn [fst snd]. rewrite (parse_json_of_bstore _ Hok).
+  apply (build_main_doc s c (side_files c) Hwf Hc). intros f x Hin. apply file_get_first; assumption.
 Qed.
 
 (** * a well-formed store can be written *)
